@@ -321,6 +321,32 @@ theorem C20_terminates_fails_after_rollback (seed : Nat) (acts more : List Actio
 example : (core (after 1 sampleSchedule)).cur.cTarget < (core (after 1 sampleSchedule)).cur.cChange ∧
     ((core (after 1 sampleSchedule)).tx 3).map (·.cc) = some .pending := by decide
 
+/-! ## Facts regenerated from the current Go source (translator) -/
+
+/-- **Transient device answers are retried** (regression for the `errorCode` fix 29b9466 in v3):
+    with the decision tables the translator regenerated from `applyChange` / `applyRollback`, a
+    device answering Unavailable, Canceled or DeadlineExceeded makes the invocation return the error
+    (no status is written), PermissionDenied is ignored, and both switches agree on every code. -/
+theorem C20_fact_transient_answers_retry :
+    classify .unavailable = .retry ∧ classify .canceled = .retry ∧ classify .deadlineExceeded = .retry ∧
+    classify .permissionDenied = .superseded ∧ (∀ a : DevAns, classifyRb a = classify a) ∧
+    OnosVerif.Generated.v3ErrorCodeTyped = true := by
+  refine ⟨by decide, by decide, by decide, by decide, ?_, by decide⟩
+  intro a; cases a <;> decide
+
+/-- every other refusal fails the phase with the failure type the inner switch assigns -/
+theorem C20_fact_failure_types :
+    classify .invalidArgument = .fail .invalid ∧ classify .internal = .fail .internal ∧
+    classify .unknown = .fail .unknown ∧ classify .notFound = .fail .notFound ∧
+    classify .unimplemented = .fail .notSupported := by
+  refine ⟨by decide, by decide, by decide, by decide, by decide⟩
+
+/-- the defect the negation witnesses rest on, as the translator finds it in the source today:
+    both status-update helpers return nil on a CAS conflict -/
+theorem C20_fact_conflicts_are_swallowed :
+    OnosVerif.Generated.v3SwallowCfgConflict = true ∧ OnosVerif.Generated.v3SwallowTxConflict = true := by
+  decide
+
 /-! ## Non-vacuity -/
 
 example : safeSchedule sampleSchedule = true ∧ storeNeverFails (initSys 1) sampleSchedule = true := by decide
